@@ -1,13 +1,22 @@
 """C11 - LLCP PDU encoding and decoding are mutually consistent.
 
 Monitors (all on the real nfc.llcp.pdu functions):
-  roundtrip   decode(encode(p)) has the type and public field values of p   (valid field values)
+  roundtrip   decode(encode(p)) has the type and public field values of p and compares == p   (valid field values)
   len         len(p) == len(encode(p))  (icontract postcondition on every encode + explicit)
   escape      decode() raises only DecodeError; encode() of a decoded PDU does not raise
-  idempotence decode(encode(decode(b))) == decode(b)
-  differential both nfcpy and the independent reader accept b => same fields
+  idempotence decode(encode(decode(b))) == decode(b)   (by fields and by ==)
+  differential nfcpy and the independent reader accept b => same fields;
+              nfcpy accepts b although the frame format forbids it (reference rejects with a format-derived
+              reason code, vf.ref.llcp_ref.REASONS) => violation, per PDU type and reason
   window      decode(pre+b+suf, len(pre), len(b)) behaves exactly like decode(b)  ("own bytes only"),
-              also with b as first member of an aggregate followed by another PDU
+              also with b as first member of an aggregate followed by arbitrary bytes, and as middle / last
+              member between always-valid neighbours (then: aggregate accepted <=> b accepted alone, member
+              and neighbour fields as decoded alone)
+  buffer      decode(bytearray(b)) behaves like decode(bytes(b)); the decoded fields do not change when the
+              caller's buffer is overwritten afterwards (memoryview input and decode(buf, offset) without
+              size are observed and counted only: call form / input type are API, not part of the statement)
+  encode-bytes  encode(p) against the reference encoding as header + TLV multiset + payload: counted and
+              classified (a difference is a verdict only through roundtrip / len / differential)
 """
 import random
 import struct
@@ -19,37 +28,73 @@ ID = "C11"
 LEVEL = "exploration"
 RULE = ("cases = (a) PDUs of all 14 types generated from valid field values (b) byte strings: exhaustive up to "
         "2 bytes (3 in thorough), 2-byte headers x payload templates, grammar-aware mutations of valid encodings "
-        "(truncation, length +-1, bit flips, substitutions, nested aggregates), random strings up to 2200 bytes; "
-        "a case is distinct by its bytes / field tuple and non-trivial if it reached at least one oracle "
-        "comparison (decode accepted, or window comparison run)")
-ASSUMPTIONS = ["vf.ref.llcp_ref is a faithful reading of the LLCP 1.3 frame formats",
+        "(truncation, length +-1, bit flips, substitutions, nested aggregates), structure-aware mutations of the "
+        "parameter list / aggregate framing of valid PDUs (foreign, duplicated, permuted, explicit-default, "
+        "zero-length TLVs, L octets and aggregate length fields +-1/+-2, reserved bits, trailing octets), random "
+        "strings up to 2200 bytes; a case is distinct by its bytes / field tuple and non-trivial if it reached at "
+        "least one oracle comparison (decode accepted, or window comparison run)")
+ASSUMPTIONS = ["vf.ref.llcp_ref is a faithful reading of the LLCP 1.3 frame formats; its rejections (REASONS table) "
+               "are the ones that follow from the frame format, everything else it reads leniently",
                "an empty service name / ECPK / RN value and an absent one are treated as equal (nfcpy logs them as invalid)",
-               "a parameter TLV occurring twice is left out of the differential comparison (unspecified)"]
-REQUIRED = ["roundtrip_checked", "idempotence_checked", "differential_both_accept", "window_checked", "pdu_len_contract"]
+               "a parameter TLV occurring twice is left out of the differential comparison (unspecified)",
+               "bytes and bytearray are the byte strings of the statement (bytearray is what the link controller "
+               "passes to decode); memoryview input and decode(data, offset) without size are observed only",
+               "two PDUs whose type or public field values differ must not compare equal (the statement's 'equal PDU')"]
+
+TYPES14 = ["SYMM", "PAX", "AGF", "UI", "CONNECT", "DISC", "CC", "DM", "FRMR", "SNL", "DPS", "I", "RR", "RNR"]
+TLV_KINDS = ("PAX", "CONNECT", "CC", "SNL", "DPS")
+TLV_CLASSES = ["foreign-wellformed", "foreign-badlen", "unknown-type", "duplicate-same", "duplicate-other", "permute",
+               "explicit-default", "length-delta", "length-delta-consistent", "zero-length", "reserved-bits",
+               "trailing-octet"]
+AGF_CLASSES = ["agf-length-delta", "agf-zero-length-member", "agf-one-octet-member", "agf-trailing-octet",
+               "agf-member-tlv-overrun", "agf-permute"]
+# format-derived reference rejections whose input class the workload must have produced (reached the decoder)
+REQUIRED_REASONS = ["short-header", "tlv-overrun", "tlv-length-VERSION", "tlv-length-MIUX", "tlv-length-WKS",
+                    "tlv-length-LTO", "tlv-length-RW", "tlv-length-OPT", "tlv-length-SDREQ", "tlv-length-SDRES",
+                    "symm-address", "symm-payload", "pax-address", "agf-address", "agf-length-field",
+                    "agf-member-overrun", "dm-short", "frmr-short", "snl-address", "dps-address", "sequence-missing"]
+REQUIRED = (["roundtrip_checked", "idempotence_checked", "differential_gen_both_accept", "differential_bytes_both_accept",
+             "differential_ref_consulted", "window_checked", "window_agf_first", "window_agf_middle", "window_agf_last",
+             "window_agf_neighbours_checked", "pdu_len_contract", "encode_bytes_compared", "eq_roundtrip_checked",
+             "eq_idempotence_checked", "eq_distinct_checked", "buffer_bytearray_checked", "buffer_overwrite_checked",
+             "buffer_memoryview_observed", "callform_offset_nosize_observed"]
+            + ["valid_" + t for t in TYPES14] + ["decoded_" + t for t in TYPES14 + ["UNKNOWN"]]
+            + ["window_" + t for t in TYPES14 + ["UNKNOWN"]]
+            + ["window_rejected_" + t for t in ("SYMM", "PAX", "AGF", "CONNECT", "CC", "DM", "FRMR", "SNL", "DPS")]
+            + ["tlvmut_" + c for c in TLV_CLASSES + AGF_CLASSES + ["length-enumeration"]]
+            + ["input_format_forbids_" + c for c in REQUIRED_REASONS])
 
 
 def plan(tier, seed):
     n = 16
     if tier == "quick":
-        return [{"valid": 2500, "mut": 2500, "rand": 1500, "hdr": 4000, "ex_first": [i * 16, i * 16 + 16], "ex_len": 2}
-                for i in range(n)]
+        return [{"valid": 2500, "mut": 2500, "rand": 1500, "hdr": 4000, "tlvmut": 450, "tlvenum_parts": 4,
+                 "ex_first": [i * 16, i * 16 + 16], "ex_len": 2} for i in range(n)]
+    # "dense": every sampled clause (==, buffer forms, aggregate window) on every case
     return [{"valid": 40000, "mut": 40000, "rand": 20000, "hdr": 65536 // n, "hdr_range": [i * 4096, i * 4096 + 4096],
-             "ex_first": [i * 16, i * 16 + 16], "ex_len": 3, "timeout": 3000} for i in range(n)]
+             "hdr_all_templates": True, "tlvmut": 36000, "dense": True,
+             "ex_first": [i * 16, i * 16 + 16], "ex_len": 3, "timeout": 7000} for i in range(n)]
 
 
 # ---------------------------------------------------------------------------------------------
-def gen_valid(rng, depth=0, max_payload=2175):
+NAME_CHARS = b"abcdefghijklmnopqrstuvwxyz:.-0123456789"
+
+
+def gen_valid(rng, depth=0, max_payload=2175, kinds=None):
     """canonical dict of a PDU with valid field values"""
-    kinds = ["SYMM", "PAX", "UI", "CONNECT", "DISC", "CC", "DM", "FRMR", "SNL", "DPS", "I", "RR", "RNR"]
-    if depth < 2:
-        kinds.append("AGF")
+    if kinds is None:
+        kinds = ["SYMM", "PAX", "UI", "CONNECT", "DISC", "CC", "DM", "FRMR", "SNL", "DPS", "I", "RR", "RNR"]
+        if depth < 2:
+            kinds.append("AGF")
     t = rng.choice(kinds)
     sap = lambda: rng.choice([0, 1, 4, 15, 16, 31, 32, 63, rng.randrange(64)])
     d = {"t": t, "dsap": sap(), "ssap": sap()}
     plen = rng.choice([0, 1, 2, 127, 128, 129, 255, 256, max_payload, rng.randrange(max_payload + 1)])
     plen = min(plen, max_payload)
-    name = lambda lo=1: bytes(rng.choice(b"abcdefghijklmnopqrstuvwxyz:.-0123456789") for _ in range(
-        rng.choice([lo, lo + 1, 16, 60, 200, 254, rng.randrange(lo, 255)])))
+
+    def name(lo=1, hi=254):
+        n = rng.choice([lo, lo + 1, 16, 60, 200, hi - 1, hi, rng.randrange(lo, hi + 1)])
+        return bytes(rng.choices(NAME_CHARS, k=n))
     miu = lambda: 128 + rng.choice([0, 1, 119, 120, 0x7FE, 0x7FF, rng.randrange(0x800)])
     rw = lambda: rng.choice([0, 1, 2, 15, rng.randrange(16)])
     if t in ("SYMM", "PAX", "AGF", "DPS"):
@@ -78,18 +123,21 @@ def gen_valid(rng, depth=0, max_payload=2175):
         d["miu"] = miu()
         d["rw"] = rw()
         if t == "CONNECT":
-            d["sn"] = name() if rng.random() < 0.6 else None
+            d["sn"] = name(1, 255) if rng.random() < 0.6 else None      # a TLV value may have 255 octets
     elif t == "DM":
         d["reason"] = rng.choice([0, 1, 2, 3, 0x10, 0x11, 0x20, 0x21, rng.randrange(256)])
     elif t == "FRMR":
         for k in ("rej_flags", "rej_ptype", "ns", "nr", "vs", "vr", "vsa", "vra"):
             d[k] = rng.randrange(16)
     elif t == "SNL":
-        d["sdreq"] = [(rng.randrange(256), name()) for _ in range(rng.choice([0, 0, 1, 2, 5]))]
+        # SDREQ value = TID + name: the name may be empty (logged, but a value nfcpy encodes and decodes) up to 254 octets
+        d["sdreq"] = [(rng.randrange(256), name(0, 254)) for _ in range(rng.choice([0, 0, 1, 2, 5]))]
         d["sdres"] = [(rng.randrange(256), rng.randrange(64)) for _ in range(rng.choice([0, 0, 1, 2, 40]))]
     elif t == "DPS":
-        d["ecpk"] = rng.randbytes(rng.choice([64, 2, 254])) if rng.random() < 0.7 else None
-        d["rn"] = rng.randbytes(rng.choice([8, 1, 255])) if rng.random() < 0.7 else None
+        d["ecpk"] = rng.randbytes(rng.choice([64, 2, 254, 255, 1, 63, 65, 128, rng.randrange(1, 256)])) \
+            if rng.random() < 0.7 else None
+        d["rn"] = rng.randbytes(rng.choice([8, 1, 255, 254, 2, 7, 9, 16, rng.randrange(1, 256)])) \
+            if rng.random() < 0.7 else None
     elif t == "I":
         d["ns"], d["nr"], d["data"] = rng.randrange(16), rng.randrange(16), rng.randbytes(plen)
     elif t in ("RR", "RNR"):
@@ -153,12 +201,14 @@ def expected(d):
 
 def diff_fields(a, b):
     """list of 'LEAFTYPE/field' descriptors where two canonical dicts differ (aggregate members are compared leaf by leaf)"""
+    if a == b:
+        return []
     out = []
     if a.get("t") != b.get("t"):
         return ["%s/type->%s" % (a.get("t"), b.get("t"))]
     t = a.get("t")
     for k in sorted(set(a) & set(b)):
-        if k in ("ambiguous", "extra"):
+        if k in ("ambiguous", "extra", "trailing"):
             continue
         va, vb = a[k], b[k]
         if k == "pdus":
@@ -183,6 +233,74 @@ def report_diff(R, clause, df, what, case):
         R.violation("%s/%s" % (clause, item), what % item, case)
 
 
+def header_type(b):
+    """PDU type name the two header octets announce (for counters of rejected strings)"""
+    if len(b) < 2:
+        return "short"
+    return ref.NAMES.get((b[0] << 2 | b[1] >> 6) & 15, "UNKNOWN")
+
+
+def nesting(f):
+    """aggregate nesting depth of a canonical dict, without recursion"""
+    depth, level = 0, [f]
+    while level:
+        level = [x for y in level for x in y.get("pdus", [])]
+        depth += 1 if level else 0
+    return depth
+
+
+def encode_difference(enc, d, renc):
+    """None if nfcpy's encoding of d is octet-identical to the reference encoding renc, else a short class name"""
+    if enc == renc:
+        return None
+    t = d["t"]
+    if enc[:2] != renc[:2]:
+        return "header"
+    if t not in TLV_KINDS:
+        return "aggregate" if t == "AGF" else "information-field"
+    try:
+        _, mine, rest = ref.split(enc)
+    except ref.Reject:
+        return "parameter-list-unreadable"
+    _, theirs, _ = ref.parts(d)
+    if rest:
+        return "trailing-octets"
+    if sorted(mine) == sorted(theirs):
+        return "tlv-order"
+    tm, tt = [x for x, _ in mine], [x for x, _ in theirs]
+    for x in sorted(set(tt)):
+        if x not in tm:
+            return "tlv-missing:" + ref.TLV_NAMES.get(x, str(x))
+    for x in sorted(set(tm)):
+        if x not in tt:
+            return "tlv-added:" + ref.TLV_NAMES.get(x, str(x))
+    for x in sorted(set(tm)):
+        if tm.count(x) != tt.count(x):
+            return "tlv-repeated:" + ref.TLV_NAMES.get(x, str(x))
+    for x in sorted(set(tm)):
+        if sorted(v for y, v in mine if y == x) != sorted(v for y, v in theirs if y == x):
+            return "tlv-value:" + ref.TLV_NAMES.get(x, str(x))
+    return "other"
+
+
+# always-valid neighbours for the aggregate window test (no SYMM / PAX / AGF: not aggregated by a conforming sender)
+NEIGHBOUR_DICTS = [
+    {"t": "DISC", "dsap": 4, "ssap": 32},
+    {"t": "I", "dsap": 16, "ssap": 17, "ns": 1, "nr": 2, "data": b"payload"},
+    {"t": "CONNECT", "dsap": 1, "ssap": 33, "miu": 248, "rw": 2, "sn": b"urn:nfc:sn:snep"},
+    {"t": "CC", "dsap": 33, "ssap": 16, "miu": 2175, "rw": 15},
+    {"t": "RR", "dsap": 63, "ssap": 1, "nr": 9},
+    {"t": "RNR", "dsap": 20, "ssap": 21, "nr": 15},
+    {"t": "UI", "dsap": 4, "ssap": 60, "data": bytes(range(1, 9))},
+    {"t": "DM", "dsap": 32, "ssap": 4, "reason": 2},
+    {"t": "FRMR", "dsap": 17, "ssap": 16, "rej_flags": 8, "rej_ptype": 12, "ns": 1, "nr": 2, "vs": 3, "vr": 4, "vsa": 5, "vra": 6},
+    {"t": "SNL", "dsap": 1, "ssap": 1, "sdreq": [(1, b"urn:nfc:sn:x")], "sdres": [(2, 16)]},
+    {"t": "DPS", "dsap": 0, "ssap": 0, "ecpk": bytes(range(64)), "rn": bytes(range(8))},
+    {"t": "I", "dsap": 2, "ssap": 3, "ns": 15, "nr": 0, "data": b""},
+]
+INVERT = bytes(255 - i for i in range(256))
+
+
 class Checker:
     def __init__(self, R, rng):
         import nfc.llcp.pdu as P
@@ -191,6 +309,20 @@ class Checker:
         self.contracts = contracts
         contracts.install_pdu_length_contract()
         self.c0 = contracts.COUNTS.get("pdu_len_contract", 0)
+        self.k = 0
+        self.dense = False      # replay and the thorough tier ("dense") evaluate every sampled clause on every case
+        self.prev = {}          # type -> (expected dict, PDU object) of the previous generated PDU of that type
+        self.last_pdu = None
+        # neighbours: encoding + fields as nfcpy decodes them alone; must agree with the reference reading
+        self.neigh = []
+        for d in NEIGHBOUR_DICTS:
+            enc = ref.encode(d)
+            try:
+                f = self.fields(P.decode(enc))
+            except Exception:
+                continue        # reported by the generator-side differential; this neighbour is not used
+            if not diff_fields(expected(d), f):
+                self.neigh.append((enc, f))
 
     def finish(self):
         self.R.count("pdu_len_contract", self.contracts.COUNTS.get("pdu_len_contract", 0) - self.c0)
@@ -214,19 +346,35 @@ class Checker:
         R.count("valid_" + d["t"])
         if len(p) != len(enc):
             R.violation("len/%s" % d["t"], "len(pdu)=%d, encoding has %d bytes" % (len(p), len(enc)), case)
+        exp = expected(d)
+        # byte level: nfcpy's encoding against the reference encoding (classification only; verdicts come from
+        # roundtrip / len / differential, which see the same octets)
+        R.count("encode_bytes_compared")
+        renc = ref.encode(d)
+        kind = encode_difference(enc, d, renc)
+        if kind is None:
+            R.count("encode_bytes_equal")
+        else:
+            R.count("encode_bytes_differ")
+            R.seen("encode_difference", "%s/%s" % (d["t"], kind))
+        self.check_eq_distinct(d, exp, p, case)
         try:
             q = P.decode(enc)
         except Exception as e:
             R.violation("roundtrip/%s/decode-raises/%s" % (d["t"], exc_sig(e)), "decode(encode(p)) raised %r" % e, case)
             return enc
         R.count("roundtrip_checked")
-        df = diff_fields(expected(d), self.fields(q))
+        df = diff_fields(exp, self.fields(q))
         report_diff(R, "roundtrip", df, "decode(encode(p)) differs from p in %s", case)
+        if not df and (self.k % 3 == 0 or self.dense):
+            self.check_eq(q, p, "roundtrip", d["t"], case)
         # the independent encoder must produce bytes nfcpy reads the same way (differential, generator side)
         try:
-            r = P.decode(ref.encode(d))
-            R.count("differential_both_accept")
-            df = diff_fields(expected(d), self.fields(r))
+            r = self.fields(q) if renc == enc else None     # same octets: already decoded above
+            if r is None:
+                r = self.fields(P.decode(renc))
+            R.count("differential_gen_both_accept")
+            df = diff_fields(exp, r)
             report_diff(R, "differential-gen", df, "nfcpy reads a reference encoding differently in %s", case)
         except P.DecodeError as e:
             R.violation("differential-gen/%s/rejected" % d["t"], "nfcpy rejects a valid reference encoding: %s" % e, case)
@@ -234,12 +382,53 @@ class Checker:
             R.violation("escape/decode/%s" % exc_sig(e), "decode raised %r" % e, case)
         return enc
 
+    def check_eq(self, q, p, clause, t, case):
+        """the statement's 'equal PDU' with the library's own ==  (q is a decoded re-encoding of p)"""
+        R = self.R
+        try:
+            same = (q == p)
+            differ = (q != p) if (self.k % 8 == 0 or self.dense) else not same
+        except RecursionError:
+            R.count("eq_recursion_not_judged")
+            return
+        except Exception as e:
+            R.violation("eq/%s/%s/raises/%s" % (clause, t, exc_sig(e)), "comparing two PDUs with == raised %r" % e, case)
+            return
+        R.count("eq_%s_checked" % clause)
+        if not same or differ:
+            R.violation("eq/%s/%s/%s" % (clause, t, "not-equal" if not same else "equal-and-unequal"),
+                        "the decoded re-encoding has the same type and field values but == says %r and != says %r"
+                        % (same, differ), case)
+
+    def check_eq_distinct(self, d, exp, p, case):
+        """PDUs that differ in type or a public field value must not compare equal"""
+        R = self.R
+        others = []
+        if d["t"] in self.prev and self.prev[d["t"]][0] != exp and (self.k % 2 == 1 or self.dense):
+            others.append(self.prev[d["t"]])
+        if self.last_pdu is not None and self.last_pdu[0]["t"] != d["t"] and (self.k % 8 == 0 or self.dense):
+            others.append(self.last_pdu)
+        self.prev[d["t"]] = self.last_pdu = (exp, p, d)
+        for oexp, o, od in others:
+            try:
+                same = (p == o)
+            except Exception as e:
+                R.violation("eq/distinct/%s/raises/%s" % (d["t"], exc_sig(e)), "comparing two PDUs with == raised %r" % e, case)
+                continue
+            R.count("eq_distinct_checked")
+            if same:
+                what = "type" if oexp["t"] != d["t"] else "fields"
+                R.violation("eq/distinct/%s/equal-though-%s-differ" % (d["t"], what),
+                            "two PDUs that differ in %s compare equal" % what,
+                            {"kind": "eq-distinct", "pdu": d, "other": od})
+
     # -- (b) byte strings ---------------------------------------------------------------------
-    def check_bytes(self, b, window=True, key=True):
+    def check_bytes(self, b, window=True, key=True, buffers=None):
         P, R = self.P, self.R
         b = bytes(b)
         case = {"kind": "bytes", "data": b}
         acc = None
+        self.k += 1
         try:
             p = P.decode(b)
             acc = True
@@ -251,6 +440,17 @@ class Checker:
             return
         R.case(b if key else None, nontrivial=bool(key and (acc or window)))
         R.count("accepted" if acc else "rejected")
+        # the independent reading of the same octets (both directions are evaluated below)
+        rd = rej = None
+        try:
+            rd = ref.decode(b)
+        except ref.Reject as e:
+            rej = e
+        except RecursionError:
+            R.count("reference_recursion_not_judged")
+        if rej is not None:
+            R.count("input_format_forbids_" + rej.code)     # the input class reached the decoder, whatever it said
+        fp = None
         if acc:
             fp = self.fields(p)
             R.count("decoded_" + fp["t"])
@@ -262,6 +462,8 @@ class Checker:
                 R.count("idempotence_checked")
                 df = diff_fields(fp, self.fields(q))
                 report_diff(R, "idempotence", df, "decode(encode(decode(b))) differs from decode(b) in %s", case)
+                if not df and (self.k % 8 == 0 or buffers or self.dense):
+                    self.check_eq(q, p, "idempotence", fp["t"], case)
             except self.contracts.ContractBroken as e:
                 R.violation("len/%s" % fp["t"], "len(pdu) != len(encode(pdu)): %s" % e, case)
             except RecursionError:
@@ -270,27 +472,137 @@ class Checker:
             except Exception as e:
                 R.violation("idempotence/%s/raises/%s" % (fp["t"], exc_sig(e)),
                             "re-encoding/decoding a decoded PDU raised %r" % e, case)
-            try:
-                rd = ref.decode(b)
-            except ref.Reject:
-                rd = None
+            if rd is not None or rej is not None:
+                R.count("differential_ref_consulted")
+            if rej is not None:
                 R.count("differential_ref_rejects")
-            except RecursionError:
-                rd = None
+                if rej.format_derived:
+                    R.violation("differential/nfcpy-accepts-what-format-forbids/%s/%s" % (rej.pdu, rej.code),
+                                "nfcpy decodes octets that are not a frame of the LLCP frame format (%s PDU%s: %s; %s)"
+                                % (rej.pdu, " inside an aggregate" if rej.depth else "", rej,
+                                   ref.REASONS[rej.code][1]), case)
+                else:
+                    R.count("differential_ref_rejects_leniency")
             if rd is not None:
-                R.count("differential_both_accept")
-                skip = set()
+                R.count("differential_bytes_both_accept")
                 amb = _ambiguous(rd)
+                if amb:
+                    R.count("differential_ambiguous_skipped")
                 df = [] if amb else diff_fields(rd, fp)
                 report_diff(R, "differential", df, "nfcpy and the reference reader accept the bytes but differ in %s", case)
+                if rd.get("extra") or rd.get("trailing"):
+                    R.count("lenient_both_accept_surplus_octets_" + rd["t"])
+        elif rd is not None:
+            R.count("nfcpy_stricter_than_reference_" + rd["t"])
+        if (buffers if buffers is not None else (self.k % (3 if self.dense else 16) == 1)):
+            self.check_buffers(b, acc, fp)
         if window:
-            self.check_window(b, acc, p if acc else None)
+            self.check_window(b, acc, p if acc else None, fp)
 
-    def check_window(self, b, acc, p):
-        P, R, rng = self.P, self.R, self.rng
+    # -- buffer type / call form --------------------------------------------------------------
+    def check_buffers(self, b, acc, fp):
+        P, R = self.P, self.R
+        case = {"kind": "buffer", "data": b}
+        t = fp["t"] if acc else header_type(b)
+        # bytearray: what nfc.llcp.llc hands to decode()
+        ba = bytearray(b)
+        try:
+            p2 = P.decode(ba)
+            acc2 = True
+        except P.DecodeError:
+            acc2 = False
+        except Exception as e:
+            R.violation("escape/decode-bytearray/%s" % exc_sig(e), "decode(bytearray) raised %r" % e, case)
+            return
+        R.count("buffer_bytearray_checked")
+        if acc and not acc2 and nesting(fp) > 64:
+            R.count("window_nesting_not_judged")
+        elif acc2 != acc:
+            R.violation("buffer/bytearray/%s/%s" % (t, "accepted-only-as-bytearray" if acc2 else "rejected-only-as-bytearray"),
+                        "decode() of the same octets differs between bytes and bytearray input", case)
+        elif acc:
+            f2 = self.fields(p2)
+            report_diff(R, "buffer-bytearray-fields", diff_fields(fp, f2),
+                        "fields differ between bytes and bytearray input: %s", case)
+            if len(ba):
+                ba[:] = ba.translate(INVERT)        # the caller re-uses its receive buffer
+                R.count("buffer_overwrite_checked")
+                report_diff(R, "alias/bytearray", diff_fields(f2, self.fields(p2)),
+                            "a decoded field changed when the input buffer was overwritten after decode(): %s", case)
+        # memoryview: not a byte string of the statement; observed only
+        store = bytearray(b)
+        try:
+            p3 = P.decode(memoryview(store))
+            acc3 = True
+        except P.DecodeError:
+            acc3 = False
+        except Exception as e:
+            acc3 = None
+            R.count("buffer_memoryview_raises")
+            R.seen("memoryview_observations", "raises/%s" % exc_sig(e))
+        R.count("buffer_memoryview_observed")
+        if acc3 is not None:
+            if acc3 != acc:
+                R.count("buffer_memoryview_verdict_differs")
+                R.seen("memoryview_observations", "verdict-differs/%s" % t)
+            elif acc:
+                try:
+                    f3 = self.fields(p3)
+                    d3 = diff_fields(fp, f3)
+                    if len(store):
+                        store[:] = store.translate(INVERT)
+                        d3 += ["aliases:" + x for x in diff_fields(f3, self.fields(p3))]
+                except Exception as e:
+                    d3 = ["fields-raise/%s" % type(e).__name__]
+                if d3:
+                    R.count("buffer_memoryview_differs")
+                    for x in d3:
+                        R.seen("memoryview_observations", x)
+                else:
+                    R.count("buffer_memoryview_agrees")
+        # call form decode(data, offset) without size: API, not part of the statement; observed only
+        pre = b"\x05\x40"[:1 + self.k % 2]
+        try:
+            p4 = P.decode(pre + b, len(pre))
+            acc4 = True
+        except P.DecodeError:
+            acc4 = False
+        except Exception as e:
+            acc4 = None
+            R.seen("callform_observations", "raises/%s" % exc_sig(e))
+        R.count("callform_offset_nosize_observed")
+        if acc4 is False and acc:
+            R.count("callform_offset_nosize_rejects_what_decodes_alone")
+        elif acc4 is False:
+            R.count("callform_offset_nosize_rejects_as_alone")
+        elif acc4 and acc and not diff_fields(fp, self.fields(p4)):
+            R.count("callform_offset_nosize_agrees")
+        elif acc4 is not None:
+            R.count("callform_offset_nosize_differs")
+            R.seen("callform_observations", "differs/%s" % t)
+
+    # -- own bytes only -----------------------------------------------------------------------
+    def check_window(self, b, acc, p, fp=None):
+        rng = self.rng
+        if acc and fp is None:
+            fp = self.fields(p)
         pre = rng.randbytes(rng.choice([0, 1, 2, 7]))
         suf = rng.choice([b"", b"\x00", b"\xff" * 8, bytes([2, 255]) + bytes(300), rng.randbytes(rng.randrange(1, 40))])
+        self.window_offset(b, acc, fp, pre, suf)
+        if len(b) < 65536:
+            # first member of an aggregate, followed by arbitrary octets
+            if len(b) >= 2:
+                nxt = rng.choice([b"\x00\x00", bytes([0x10, 0xC1]) + b"\x07\x07" + bytes(5), rng.randbytes(rng.randrange(2, 12))])
+                self.window_agf_first(b, acc, fp, nxt)
+            # middle / last member between always-valid neighbours
+            if self.neigh and (self.k % 4 != 3 or self.dense):
+                i, j = rng.choice(self.neigh), rng.choice(self.neigh)
+                self.window_agf_valid(b, acc, fp, [i], [j] if rng.random() < 0.5 else [])
+
+    def window_offset(self, b, acc, fp, pre, suf):
+        P, R = self.P, self.R
         R.count("window_checked")
+        R.count(("window_" + fp["t"]) if acc else ("window_rejected_" + header_type(b)))
         case = {"kind": "window", "data": b, "pre": pre, "suf": suf}
         try:
             q = P.decode(pre + b + suf, len(pre), len(b))
@@ -300,39 +612,88 @@ class Checker:
         except Exception as e:
             R.violation("escape/decode-window/%s" % exc_sig(e), "decode(data, offset, size) raised %r" % e, case)
             return
-        t = (self.fields(p)["t"] if acc else (self.fields(q)["t"] if acc2 else "?"))
-        if acc != acc2:
+        t = (fp["t"] if acc else (self.fields(q)["t"] if acc2 else "?"))
+        if acc and not acc2 and nesting(fp) > 64:
+            R.count("window_nesting_not_judged")        # interpreter stack depth decides, not the codec
+        elif acc != acc2:
             R.violation("window/%s/%s" % (t, "accepted-only-with-surrounding-bytes" if acc2 else "rejected-only-with-surrounding-bytes"),
                         "decode of the same %d bytes depends on bytes outside [offset, offset+size)" % len(b), case)
         elif acc:
-            df = diff_fields(self.fields(p), self.fields(q))
+            df = diff_fields(fp, self.fields(q))
             report_diff(R, "window-fields", df, "fields differ when the same bytes are decoded inside a larger buffer: %s", case)
-        # same bytes as first member of an aggregate, followed by another PDU
-        if len(b) >= 2 and len(b) < 65536:
-            nxt = rng.choice([b"\x00\x00", bytes([0x10, 0xC1]) + b"\x07\x07" + bytes(5), rng.randbytes(rng.randrange(2, 12))])
-            agf = b"\x00\x80" + struct.pack(">H", len(b)) + b + struct.pack(">H", len(nxt)) + nxt
-            try:
-                g = P.decode(agf)
-                first = self.fields(g)["pdus"][0]
-                if not acc:
-                    R.violation("window/%s/agf-member-accepted-though-invalid-alone" % first["t"],
-                                "a PDU that is rejected on its own is accepted as member of an aggregate "
-                                "(decoder read into the next member)", {"kind": "agf", "data": b, "next": nxt})
+
+    def window_agf_first(self, b, acc, fp, nxt):
+        P, R = self.P, self.R
+        case = {"kind": "agf", "data": b, "next": nxt}
+        agf = b"\x00\x80" + struct.pack(">H", len(b)) + b + struct.pack(">H", len(nxt)) + nxt
+        R.count("window_agf_first")
+        try:
+            g = P.decode(agf)
+            first = self.fields(g)["pdus"][0]
+            if not acc:
+                R.violation("window/%s/agf-member-accepted-though-invalid-alone" % first["t"],
+                            "a PDU that is rejected on its own is accepted as member of an aggregate "
+                            "(decoder read into the next member)", case)
+            else:
+                df = diff_fields(fp, first)
+                report_diff(R, "window-agf-fields", df, "aggregate member decodes differently from the same bytes alone: %s", case)
+            R.count("window_agf_checked")
+        except P.DecodeError:
+            R.count("window_agf_rejected")
+        except Exception as e:
+            R.violation("escape/decode-agf/%s" % exc_sig(e), "decode of an aggregate raised %r" % e, case)
+
+    def window_agf_valid(self, b, acc, fp, before, after):
+        """b between neighbours that are valid on their own: the aggregate is accepted exactly if b is, every member
+        reads as it does alone"""
+        P, R = self.P, self.R
+        case = {"kind": "agf-valid", "data": b, "before": [e for e, _ in before], "after": [e for e, _ in after]}
+        members = list(before) + [(b, fp)] + list(after)
+        agf = b"\x00\x80" + b"".join(struct.pack(">H", len(e)) + e for e, _ in members)
+        pos = "middle" if after else "last"
+        R.count("window_agf_" + pos)
+        try:
+            g = self.fields(P.decode(agf))["pdus"]
+        except P.DecodeError:
+            if acc:
+                if nesting(fp) > 64:
+                    R.count("window_agf_nesting_not_judged")    # interpreter stack, see reencode_recursion_not_judged
                 else:
-                    df = diff_fields(self.fields(p), first)
-                    report_diff(R, "window-agf-fields", df, "aggregate member decodes differently from the same bytes alone: %s", {"kind": "agf", "data": b, "next": nxt})
-                R.count("window_agf_checked")
-            except P.DecodeError:
-                R.count("window_agf_rejected")
-            except Exception as e:
-                R.violation("escape/decode-agf/%s" % exc_sig(e), "decode of an aggregate raised %r" % e,
-                            {"kind": "agf", "data": b, "next": nxt})
+                    R.violation("window/%s/agf-member-rejected-though-valid-alone" % fp["t"],
+                                "a PDU that decodes on its own makes the aggregate undecodable as %s member between "
+                                "valid PDUs" % pos, case)
+            else:
+                R.count("window_agf_valid_rejected_as_alone")
+            return
+        except Exception as e:
+            R.violation("escape/decode-agf/%s" % exc_sig(e), "decode of an aggregate raised %r" % e, case)
+            return
+        if len(g) != len(members):
+            R.violation("window/%s/agf-member-count" % (fp["t"] if acc else header_type(b)),
+                        "an aggregate of %d members decodes to %d PDUs" % (len(members), len(g)), case)
+            return
+        k = len(before)
+        if not acc:
+            R.violation("window/%s/agf-member-accepted-though-invalid-alone" % g[k]["t"],
+                        "a PDU that is rejected on its own is accepted as %s member of an aggregate" % pos, case)
+        else:
+            report_diff(R, "window-agf-fields", diff_fields(fp, g[k]),
+                        "aggregate member decodes differently from the same bytes alone: %s", case)
+        for n, (e, f) in enumerate(members):
+            if n != k:
+                R.count("window_agf_neighbours_checked")
+                report_diff(R, "window-agf-neighbour" + ("-after" if n > k else "-before"), diff_fields(f, g[n]),
+                            "a valid PDU aggregated next to the tested octets decodes differently from alone: %s", case)
 
 
 def _ambiguous(d):
-    if d.get("ambiguous"):
-        return True
-    return any(_ambiguous(x) for x in d.get("pdus", []))
+    stack = [d]
+    while stack:
+        x = stack.pop()
+        if x.get("ambiguous"):
+            return True
+        stack.extend(x.get("pdus", []))
+    return False
 
 
 TEMPLATES = [b"", b"\x00", b"\x11", b"\x02\x02\x07\xff", b"\x05\x01\x00", b"\x05\x01\x1f", b"\x06\x03abc", b"\x06\x00",
@@ -375,8 +736,152 @@ def mutate(rng, enc):
     return bytes(b)
 
 
+# -- structure-aware mutations of the parameter list / the aggregate framing -------------------------------------
+DEFAULT_TLV = {1: b"\x00", 2: b"\x00\x00", 3: b"\x00\x00", 4: b"\x0a", 5: b"\x01", 6: b"", 7: b"\x00", 10: b"", 11: b""}
+RESERVED_BITS = {2: b"\xf8\x00", 5: b"\xf0", 7: b"\xf8"}
+
+
+def wellformed_tlv(rng, t):
+    """(T, L, V) of type t with a value of the length the format defines (L is carried explicitly so it can deviate)"""
+    if t in ref.FIXED_TLV_LENGTH:
+        v = rng.randbytes(ref.FIXED_TLV_LENGTH[t])
+    elif t == 8:
+        v = bytes([rng.randrange(256)]) + bytes(rng.choice(NAME_CHARS) for _ in range(rng.choice([0, 1, 5, 20])))
+    else:
+        v = rng.randbytes(rng.choice([0, 1, 2, 8, 17, 64]))
+    return [t, len(v), v]
+
+
+def serialize(hdr, tl, tail=b""):
+    return bytes(hdr) + b"".join(bytes([t, l & 255]) + bytes(v) for t, l, v in tl) + tail
+
+
+def mutate_tlvs(rng, d, cls=None):
+    """(class, octets): the parameter list of the valid TLV-carrying PDU d, changed in one structural way"""
+    hdr, tl, _ = ref.parts(d)
+    allowed = ref.TLV_ALLOWED[d["t"]]
+    tl = [[t, len(v), v] for t, v in tl]
+    while len(tl) < 2:                                # PDUs that carry no or one parameter: give them some
+        tl.insert(rng.randrange(len(tl) + 1), wellformed_tlv(rng, rng.choice(allowed)))
+    cls = cls or rng.choice(TLV_CLASSES)
+    foreign = [t for t in range(1, 12) if t not in allowed]
+    i = rng.randrange(len(tl))
+    tail = b""
+    if cls == "foreign-wellformed":
+        tl.insert(rng.randrange(len(tl) + 1), wellformed_tlv(rng, rng.choice(foreign)))
+    elif cls == "foreign-badlen":
+        t, l, v = wellformed_tlv(rng, rng.choice([t for t in foreign if t in ref.FIXED_TLV_LENGTH or t == 8]))
+        v = b"" if t == 8 else rng.choice([v[:-1], v + b"\x01", v + b"\x01\x02", b""])
+        tl.insert(rng.randrange(len(tl) + 1), [t, len(v), v])
+    elif cls == "unknown-type":
+        v = rng.randbytes(rng.choice([0, 1, 2, 3, 9]))
+        tl.insert(rng.randrange(len(tl) + 1), [rng.choice([0, 12, 13, 0x7F, 0xFF, rng.randrange(12, 256)]), len(v), v])
+    elif cls == "duplicate-same":
+        tl.insert(rng.randrange(len(tl) + 1), list(tl[i]))
+    elif cls == "duplicate-other":
+        tl.insert(rng.randrange(len(tl) + 1), wellformed_tlv(rng, tl[i][0]))
+    elif cls == "permute":
+        rng.shuffle(tl)
+    elif cls == "explicit-default":
+        # the values a sender may leave out, written explicitly (MIUX = 0, RW = 1, LTO = 100 ms, WKS = 0, OPT = 0, empty SN ...)
+        cand = [t for t in allowed if t in DEFAULT_TLV]
+        rng.shuffle(cand)
+        for t in cand[:rng.choice([1, 2, len(cand)])]:
+            tl = [x for x in tl if x[0] != t]
+            tl.insert(rng.randrange(len(tl) + 1), [t, len(DEFAULT_TLV[t]), DEFAULT_TLV[t]])
+    elif cls == "length-delta":
+        tl[i][1] = tl[i][1] + rng.choice([1, -1, 2, -2])          # L octet only; the value octets stay
+    elif cls == "length-delta-consistent":
+        dl = rng.choice([1, -1, 2, -2])                           # a well delimited TLV of the wrong length
+        v = tl[i][2]
+        v = v + rng.randbytes(dl) if dl > 0 else v[:max(0, len(v) + dl)]
+        tl[i][1:] = [len(v), v]
+    elif cls == "zero-length":
+        tl[i][1:] = [0, b""]
+    elif cls == "reserved-bits":
+        cand = [k for k, x in enumerate(tl) if x[0] in RESERVED_BITS and len(x[2]) == len(RESERVED_BITS[x[0]])]
+        if not cand:
+            t = rng.choice([t for t in allowed if t in RESERVED_BITS] or [5])
+            tl.append(wellformed_tlv(rng, t))
+            cand = [len(tl) - 1]
+        k = rng.choice(cand)
+        tl[k][2] = bytes(a | (m & rng.randrange(256)) | (m & -m) for a, m in zip(tl[k][2], RESERVED_BITS[tl[k][0]]))
+    elif cls == "trailing-octet":
+        tail = rng.randbytes(1)
+    for x in tl:
+        x[1] = max(0, min(255, x[1]))
+    return cls, serialize(hdr, tl, tail)
+
+
+def mutate_agf(rng, d, extra, cls=None):
+    """(class, octets): the framing of the valid aggregate d changed in one structural way; extra = a valid dict of a
+    TLV carrying type (used where a member's own parameter list is to overrun into the following member)"""
+    mem = [ref.encode(x) for x in d["pdus"]]
+    if len(mem) < 2:
+        mem += [ref.encode(NEIGHBOUR_DICTS[rng.randrange(len(NEIGHBOUR_DICTS))]) for _ in range(2)]
+    cls = cls or rng.choice(AGF_CLASSES)
+    lens = [len(m) for m in mem]
+    i = rng.randrange(len(mem))
+    tail = b""
+    if cls == "agf-length-delta":
+        lens[i] = max(0, lens[i] + rng.choice([1, -1, 2, -2]))    # length field only; the octets stay
+    elif cls == "agf-zero-length-member":
+        mem.insert(i, b"")
+        lens.insert(i, 0)
+    elif cls == "agf-one-octet-member":
+        mem.insert(i, rng.randbytes(1))
+        lens.insert(i, 1)
+    elif cls == "agf-trailing-octet":
+        tail = rng.randbytes(1)
+    elif cls == "agf-member-tlv-overrun":
+        # a TLV carrying member whose last L octet claims 1..n of the octets that follow the member in the aggregate.
+        # The last TLV is of a type whose value length is not fixed (own, foreign or unknown type), so that the
+        # claimed length alone does not give the overrun away; sometimes the PDU's own last (fixed length) TLV.
+        hdr, tl, _ = ref.parts(extra)
+        tl = [[t, len(v), v] for t, v in tl]
+        if not tl or rng.random() < 0.8:
+            tl.append(wellformed_tlv(rng, rng.choice([6, 6, 8, 10, 11, 0, 12, 0xFF])))
+        follow = sum(2 + n for n in lens[i:])
+        tl[-1][1] = min(255, tl[-1][1] + rng.choice([1, 2, 3, follow, max(1, follow - 1), rng.randrange(1, 12)]))
+        m = serialize(hdr, tl)
+        mem.insert(i, m)
+        lens.insert(i, len(m))
+    elif cls == "agf-permute":
+        order = list(range(len(mem)))
+        rng.shuffle(order)
+        mem, lens = [mem[k] for k in order], [lens[k] for k in order]
+    out = b"\x00\x80" + b"".join(struct.pack(">H", min(n, 65535)) + m for n, m in zip(lens, mem)) + tail
+    return cls, out
+
+
+def enumerate_tlv_lengths(rng, part, parts_total):
+    """every parameter type 0..12 (0 and 12 are not defined) with every small L octet 0..4 (right and wrong ones),
+    well delimited, at the start / in the middle / at the end of the parameter list of every TLV carrying PDU type"""
+    n = 0
+    for kind in TLV_KINDS:
+        for t in range(13):
+            for l in range(5):
+                n += 1
+                if n % parts_total != part:
+                    continue
+                hdr, tl, _ = ref.parts(gen_valid(rng, kinds=[kind]))
+                tl = [[x, len(v), v] for x, v in tl]
+                tl.insert(rng.choice([0, len(tl), rng.randrange(len(tl) + 1)]), [t, l, rng.randbytes(l)])
+                yield serialize(hdr, tl)
+
+
+def structured_case(rng, cls=None):
+    if cls is None:
+        cls = rng.choice(TLV_CLASSES + AGF_CLASSES)
+    if cls in TLV_CLASSES:
+        return mutate_tlvs(rng, gen_valid(rng, kinds=list(TLV_KINDS)), cls)
+    d = gen_valid(rng, depth=1, max_payload=200, kinds=["AGF"])
+    return mutate_agf(rng, d, gen_valid(rng, kinds=["CONNECT", "CC", "CONNECT", "CC", "PAX", "SNL", "DPS"]), cls)
+
+
 def run(desc, R, rng):
     ck = Checker(R, rng)
+    ck.dense = bool(desc.get("dense"))
     # (b1) exhaustive short strings
     lo, hi = desc["ex_first"]
     n_ex = 0
@@ -391,7 +896,8 @@ def run(desc, R, rng):
             n_ex += 1
             if desc["ex_len"] >= 3:
                 for third in range(256):
-                    ck.check_bytes(bytes([first, second, third]), window=False, key=False)
+                    ck.check_bytes(bytes([first, second, third]), window=((second * 256 + third) % 61 == 0), key=False,
+                                   buffers=((second * 256 + third) % 16 == 0))
                 n_ex += 256
     R.bulk(0, n_ex)
     R.count("exhaustive_short_strings", n_ex)
@@ -402,9 +908,9 @@ def run(desc, R, rng):
     else:
         hdrs = [rng.randrange(65536) for _ in range(desc["hdr"])]
     for h in hdrs:
-        t = rng.choice(TEMPLATES)
-        ck.check_bytes(struct.pack(">H", h) + t, window=True)
-        R.count("header_template")
+        for t in (TEMPLATES if desc.get("hdr_all_templates") else [rng.choice(TEMPLATES)]):
+            ck.check_bytes(struct.pack(">H", h) + t, window=True)
+            R.count("header_template")
     # (a) valid PDUs, (b3) mutations of them
     encs = []
     for i in range(desc["valid"]):
@@ -422,6 +928,17 @@ def run(desc, R, rng):
         R.count("mutated")
         if i < 1:
             R.sample({"mutated": m[:40]})
+    # (b4) structure-aware mutations of parameter lists and aggregate framing
+    classes = TLV_CLASSES + AGF_CLASSES
+    for i in range(desc.get("tlvmut", 0)):
+        cls, m = structured_case(rng, classes[i % len(classes)])
+        R.count("tlvmut_" + cls)
+        ck.check_bytes(m, window=True)
+        if i < 1:
+            R.sample({"structured": cls, "octets": m[:40]})
+    for m in enumerate_tlv_lengths(rng, desc["shard"] % desc.get("tlvenum_parts", 1), desc.get("tlvenum_parts", 1)):
+        R.count("tlvmut_length-enumeration")
+        ck.check_bytes(m, window=True)
     for i in range(desc["rand"]):
         n = rng.choice([2, 3, 4, 5, 6, 8, 16, 40, 300, 2200, rng.randrange(2, 2201)])
         ck.check_bytes(rng.randbytes(n), window=(i % 3 == 0))
@@ -432,19 +949,37 @@ def run(desc, R, rng):
 def replay(case, R):
     rng = random.Random(0)
     ck = Checker(R, rng)
+    ck.dense = True
     k = case.get("kind")
     if k == "valid":
-        d = case["pdu"]
-        d = _retuple(d)
+        d = _retuple(case["pdu"])
         enc = ck.check_valid(d)
         if enc is not None:
-            ck.check_bytes(enc)
-    elif k in ("bytes",):
-        ck.check_bytes(case["data"])
-    elif k in ("window", "agf"):
-        for s in range(40):     # surroundings are drawn from the PRNG; try several
-            ck.rng = random.Random(s)
-            ck.check_bytes(case["data"])
+            ck.check_bytes(enc, buffers=True)
+    elif k == "eq-distinct":
+        ck.check_valid(_retuple(case["other"]))
+        ck.check_valid(_retuple(case["pdu"]))
+    elif k in ("bytes", "buffer"):
+        ck.check_bytes(case["data"], buffers=True)
+    elif k in ("window", "agf", "agf-valid"):
+        b = bytes(case["data"])
+        try:
+            p = ck.P.decode(b)
+            acc, fp = True, ck.fields(p)
+        except ck.P.DecodeError:
+            acc, fp = False, None
+        if k == "window" and "pre" in case:
+            ck.window_offset(b, acc, fp, bytes(case["pre"]), bytes(case["suf"]))
+        elif k == "agf" and "next" in case:
+            ck.window_agf_first(b, acc, fp, bytes(case["next"]))
+        elif k == "agf-valid":
+            known = dict(ck.neigh)       # only neighbours that (still) decode alone as the reference reads them
+            before, after = [[(bytes(e), known[bytes(e)]) for e in case[k] if bytes(e) in known] for k in ("before", "after")]
+            ck.window_agf_valid(b, acc, fp, before, after)
+        else:
+            for s in range(40):     # witnesses of older runs do not carry their surroundings; try several
+                ck.rng = random.Random(s)
+                ck.check_bytes(b)
     ck.finish()
 
 
